@@ -248,6 +248,35 @@ macro_rules! float_checks {
                         }
                     }
                 }
+                // every operator applied on top of every operator: written in the text, and applied
+                // to a parsed expression afterwards (an operator keeps its meaning whatever it is
+                // applied to - `asin` of `sin(x)` is not x outside [-pi/2, pi/2])
+                for inner in UN_NAMES {
+                    for outer in UN_NAMES {
+                        let t_in = format!("{inner}(x)");
+                        let forms: Vec<(&str, exmex::ExResult<FlatEx<F>>)> = vec![
+                            ("parsed composition", FlatEx::<F>::parse(&format!("{outer}({inner}(x))"))),
+                            ("FlatEx::operate_unary", FlatEx::<F>::parse(&t_in).and_then(|e| e.operate_unary(outer))),
+                            ("DeepEx::operate_unary", DeepEx::<F>::parse(&t_in).and_then(|e| e.operate_unary(outer)).and_then(FlatEx::<F>::from_deepex)),
+                        ];
+                        st.class(($tn, "composition", *inner, *outer));
+                        for (how, e) in &forms {
+                            for a in few.iter().step_by(2) {
+                                st.bump("cases");
+                                st.bump("composed_applications");
+                                let want = model_un(outer, model_un(inner, *a));
+                                let got = catch(|| e.as_ref().map(|e| e.eval(&[*a])));
+                                match got {
+                                    Ok(Ok(Ok(g))) if agrees(g, want, outer) => {}
+                                    other => {
+                                        bad(st, how, outer, format!("{outer} applied to {inner}(x) at x = {a:?}"), format!("{other:?}").chars().take(200).collect(), format!("{want:?}"));
+                                        break;
+                                    }
+                                }
+                            }
+                        }
+                    }
+                }
                 for name in CONST_NAMES {
                     for t in [name.to_string(), format!("({name})"), format!("1*{name}"), format!("-{name}")] {
                         st.bump("cases");
@@ -286,7 +315,8 @@ pub fn run(ctx: &Ctx) -> i32 {
     .require("direct_applications", 50000)
     .require("parsed_applications", 20000)
     .require("eval_str_applications", 500)
-    .require("constants_checked", 12);
+    .require("constants_checked", 12)
+    .require("composed_applications", 100000);
     report.extra = json!({"exhaustive_subspace": "every operator x every (ordered pair of) special value(s), f32 and f64"});
     finish(ctx, stats, report)
 }
